@@ -31,24 +31,26 @@ Def(r) == CASE r = "A" -> [status |-> 200, hdrs |-> {"content-type", "x-a", "cac
             [] r = "F" -> [status |-> 200, hdrs |-> {"content-type", "x-f", "cache-control"}, body |-> "chunked", cl |-> FALSE, storable |-> FALSE]
             [] r = "G" -> [status |-> 204, hdrs |-> {"x-g"}, body |-> "empty", cl |-> FALSE, storable |-> FALSE]
 \* exchange kinds
-KDef(k) == CASE k = "get_a"   -> [res |-> "A", method |-> "GET", range |-> "none", rbody |-> "none"]
-             [] k = "get_b"   -> [res |-> "B", method |-> "GET", range |-> "none", rbody |-> "none"]
-             [] k = "get_c"   -> [res |-> "C", method |-> "GET", range |-> "none", rbody |-> "none"]
-             [] k = "post_d"  -> [res |-> "D", method |-> "POST", range |-> "none", rbody |-> "sized"]
-             [] k = "get_e"   -> [res |-> "E", method |-> "GET", range |-> "none", rbody |-> "none"]
-             [] k = "get_f"   -> [res |-> "F", method |-> "GET", range |-> "none", rbody |-> "none"]
-             [] k = "head_a"  -> [res |-> "A", method |-> "HEAD", range |-> "none", rbody |-> "none"]
-             [] k = "head_b"  -> [res |-> "B", method |-> "HEAD", range |-> "none", rbody |-> "none"]
-             [] k = "head_c"  -> [res |-> "C", method |-> "HEAD", range |-> "none", rbody |-> "none"]
-             [] k = "range_a" -> [res |-> "A", method |-> "GET", range |-> "ok", rbody |-> "none"]
-             [] k = "range_b" -> [res |-> "B", method |-> "GET", range |-> "ok", rbody |-> "none"]
-             [] k = "bad_a"   -> [res |-> "A", method |-> "GET", range |-> "bad", rbody |-> "none"]
+KDef(k) == CASE k = "get_a"   -> [res |-> "A", method |-> "GET", range |-> "none", rbody |-> "none", expect |-> FALSE]
+             [] k = "get_b"   -> [res |-> "B", method |-> "GET", range |-> "none", rbody |-> "none", expect |-> FALSE]
+             [] k = "get_c"   -> [res |-> "C", method |-> "GET", range |-> "none", rbody |-> "none", expect |-> FALSE]
+             [] k = "post_d"  -> [res |-> "D", method |-> "POST", range |-> "none", rbody |-> "sized", expect |-> FALSE]
+             [] k = "get_e"   -> [res |-> "E", method |-> "GET", range |-> "none", rbody |-> "none", expect |-> FALSE]
+             [] k = "get_f"   -> [res |-> "F", method |-> "GET", range |-> "none", rbody |-> "none", expect |-> FALSE]
+             [] k = "head_a"  -> [res |-> "A", method |-> "HEAD", range |-> "none", rbody |-> "none", expect |-> FALSE]
+             [] k = "head_b"  -> [res |-> "B", method |-> "HEAD", range |-> "none", rbody |-> "none", expect |-> FALSE]
+             [] k = "head_c"  -> [res |-> "C", method |-> "HEAD", range |-> "none", rbody |-> "none", expect |-> FALSE]
+             [] k = "range_a" -> [res |-> "A", method |-> "GET", range |-> "ok", rbody |-> "none", expect |-> FALSE]
+             [] k = "range_b" -> [res |-> "B", method |-> "GET", range |-> "ok", rbody |-> "none", expect |-> FALSE]
+             [] k = "bad_a"   -> [res |-> "A", method |-> "GET", range |-> "bad", rbody |-> "none", expect |-> FALSE]
              \* a request body the proxy has no use for (GET answered from the store), a large upload, an answer without body
-             [] k = "getbody_a" -> [res |-> "A", method |-> "GET", range |-> "none", rbody |-> "sized"]
-             [] k = "post_big" -> [res |-> "D", method |-> "POST", range |-> "none", rbody |-> "big"]
-             [] k = "get_g"   -> [res |-> "G", method |-> "GET", range |-> "none", rbody |-> "none"]
+             [] k = "getbody_a" -> [res |-> "A", method |-> "GET", range |-> "none", rbody |-> "sized", expect |-> FALSE]
+             [] k = "post_big" -> [res |-> "D", method |-> "POST", range |-> "none", rbody |-> "big", expect |-> FALSE]
+             [] k = "get_g"   -> [res |-> "G", method |-> "GET", range |-> "none", rbody |-> "none", expect |-> FALSE]
+             \* an upload announced with "Expect: 100-continue", answered without a length
+             [] k = "post_expect_f" -> [res |-> "F", method |-> "POST", range |-> "none", rbody |-> "sized", expect |-> TRUE]
 AllKinds == {"get_a", "get_b", "get_c", "post_d", "get_e", "get_f", "head_a", "head_b", "head_c", "range_a", "range_b", "bad_a",
-             "getbody_a", "post_big", "get_g"}
+             "getbody_a", "post_big", "get_g", "post_expect_f"}
 Tracked == UNION {Def(r).hdrs : r \in Res} \cup {"content-range"}
 
 VARIABLES store, resp, out, n
